@@ -50,6 +50,7 @@ type vC11Ext struct {
 	id                *componentstatus.InstanceID
 	startRep, stopRep []int
 	startErr, stopErr bool
+	errKind           int
 	started           bool
 }
 
@@ -78,7 +79,7 @@ func (n *vC11Ext) Start(context.Context, component.Host) error {
 	}
 	if n.startErr {
 		n.run.script = append(n.run.script, [2]int{n.i, 102})
-		return errors.New("start failed")
+		return vC11Err(n.errKind, "start")
 	}
 	n.run.script = append(n.run.script, [2]int{n.i, 101})
 	n.run.atReturn[n.i] = n.run.cur[n.i]
@@ -93,10 +94,53 @@ func (n *vC11Ext) Shutdown(context.Context) error {
 	}
 	if n.stopErr {
 		n.run.script = append(n.run.script, [2]int{n.i, 105})
-		return errors.New("stop failed")
+		return vC11Err(n.errKind/4, "stop")
 	}
 	n.run.script = append(n.run.script, [2]int{n.i, 104})
 	return nil
+}
+
+func vC11Err(kind int, what string) error {
+	switch kind % 4 {
+	case 1:
+		return context.Canceled
+	case 2:
+		return fmt.Errorf("%s: %w", what, context.Canceled)
+	case 3:
+		return context.DeadlineExceeded
+	}
+	return errors.New(what + " failed")
+}
+
+func vC11SimLifecycle(script [][2]int, nn int) [][2]int {
+	cur := make([]int, nn)
+	var ev [][2]int
+	rep := func(i, s int) {
+		if vC11Diagram(cur[i], s) {
+			cur[i] = s
+			ev = append(ev, [2]int{i, s})
+		}
+	}
+	for _, op := range script {
+		i := op[0]
+		switch op[1] {
+		case 100:
+			rep(i, 1)
+		case 101:
+			if cur[i] == 1 {
+				rep(i, 2)
+			}
+		case 102, 105:
+			rep(i, 4)
+		case 103:
+			rep(i, 6)
+		case 104:
+			rep(i, 7)
+		default:
+			rep(i, op[1])
+		}
+	}
+	return ev
 }
 
 func vC11Reports(rng *vRand, max int) []int {
@@ -149,7 +193,7 @@ func TestVerifC11Ext(t *testing.T) {
 			cid := component.MustNewIDWithName("x", fmt.Sprint(i))
 			id := componentstatus.NewInstanceID(cid, component.KindExtension)
 			exts[i] = &vC11Ext{i: i, run: run, id: id, startRep: vC11Reports(rng, 3), stopRep: vC11Reports(rng, 2),
-				startErr: rng.Intn(100) < 12, stopErr: rng.Intn(100) < 20}
+				startErr: rng.Intn(100) < 12, stopErr: rng.Intn(100) < 20, errKind: rng.Intn(16)}
 			idx[id] = i
 			watcher[i] = rng.Intn(100) < 60
 			if watcher[i] {
@@ -195,6 +239,10 @@ func TestVerifC11Ext(t *testing.T) {
 					fmt.Sprintf("watcher extension %d was delivered %v, the reporter accepted %v", w, run.seen[w], run.got))
 				break
 			}
+		}
+		if want := vC11SimLifecycle(run.script, nn); fmt.Sprint(want) != fmt.Sprint(run.got) {
+			out.Oracle("lifecycle-events-differ-from-diagram-simulation", term,
+				fmt.Sprintf("delivered %v, the documented diagram applied to the script gives %v", run.got, want))
 		}
 		autoOK, noAutoOK := 0, 0
 		for i := 0; i < nn; i++ {
